@@ -16,6 +16,24 @@ sys.setrecursionlimit(10000)
 REPO_SRC = (os.environ.get("VERIF_REPO_SRC") or "/repo/src").rstrip("/") + "/"
 
 
+def build_failure(e):
+    """An exception raised while a harness module builds its retorts / loaders / converters at import time is a BUILD failure of the code under
+    test when the traceback runs through /repo/src (or adaptix-generated code); otherwise it is a harness error.  Returns a description or None."""
+    tb, frames = e.__traceback__, []
+    while tb is not None:
+        f = tb.tb_frame.f_code.co_filename
+        if REPO_SRC in f:
+            frames.append(f.split(REPO_SRC)[1] + ":" + str(tb.tb_lineno) + " " + tb.tb_frame.f_code.co_name)
+        elif f.startswith("<adaptix"):
+            frames.append(f + ":" + str(tb.tb_lineno))
+        tb = tb.tb_next
+    if isinstance(e, ImportError):
+        return None              # a renamed / removed internal the harness imports: harness out of date
+    if not frames:
+        return None
+    return "".join(traceback.format_exception_only(type(e), e)).strip()[-400:] + " | raised through " + " <- ".join(reversed(frames[-3:]))
+
+
 def load_module(path):
     name = "vfh_" + os.path.splitext(os.path.basename(path))[0]
     spec = importlib.util.spec_from_file_location(name, path)
@@ -32,7 +50,15 @@ def main():
     try:
         mod = load_module(path)
     except BaseException as e:
-        out.update(status="HARNESS_ERROR", detail="import: " + "".join(traceback.format_exception_only(type(e), e)).strip()[-500:])
+        bf = build_failure(e) if isinstance(e, Exception) else None
+        if fn_name == "__build__" and bf:
+            out.update(status="OK", reproduced=True, exc=bf, result=None)
+        else:
+            out.update(status="HARNESS_ERROR", detail="import: " + "".join(traceback.format_exception_only(type(e), e)).strip()[-500:])
+        print("RPL " + json.dumps(out))
+        return
+    if fn_name == "__build__":
+        out.update(status="OK", reproduced=False, result="module builds natively")
         print("RPL " + json.dumps(out))
         return
     try:
